@@ -180,6 +180,22 @@ impl UnknownAttributes {
     ensures r@ == self.list(),
 //@end
 }
+impl vstd::std_specs::convert::FromSpecImpl<&[u16]> for UnknownAttributes {
+    open spec fn obeys_from_spec() -> bool { false }
+    open spec fn from_spec(v: &[u16]) -> Self { arbitrary() }
+}
+impl From<&[u16]> for UnknownAttributes {
+//@item stun_rs :: mod attributes > mod stun > mod unknown_attributes > impl From<&[u16]> for UnknownAttributes > fn from
+//@tags C19
+//@rules R3F R4N
+//@spec
+    ensures r.list() == ua_fold(v@, v@.len() as int), no_dups(r.list()),
+//@loop 1
+    invariant vx_it0.history@.len() <= v@.len(),
+        forall|i: int| 0 <= i < vx_it0.history@.len() ==> *vx_it0.history@[i] == v@[i],
+        attr.list() == ua_fold(v@, vx_it0.history@.len() as int), no_dups(attr.list()),
+//@end
+}
 impl EncodeAttributeValue for UnknownAttributes {
     open spec fn post_wire(&self, enc: Seq<u8>, val: Seq<u8>) -> Seq<u8> { val }
     open spec fn post_ok(&self, enc: Seq<u8>, val: Seq<u8>) -> bool { true }
@@ -900,4 +916,17 @@ proof fn lemma_roundtrip_PasswordAlgorithms(x: PasswordAlgorithms, enc: Seq<u8>)
     assert(l.subrange(0, l.len() as int) =~= l);
     let p1 = choose|p: PasswordAlgorithms| pas_algs(p) == l;
     lemma_pas_ext(x, p1);
+}
+
+// ---------------------------------------------------------------- remaining conversions of the list kinds
+impl vstd::std_specs::convert::FromSpecImpl<Vec<PasswordAlgorithm>> for PasswordAlgorithms {
+    open spec fn obeys_from_spec() -> bool { false }
+    open spec fn from_spec(v: Vec<PasswordAlgorithm>) -> Self { arbitrary() }
+}
+impl From<Vec<PasswordAlgorithm>> for PasswordAlgorithms {
+//@item stun_rs :: mod attributes > mod stun > mod password_algorithms > impl From<Vec<PasswordAlgorithm>> for PasswordAlgorithms > fn from
+//@tags C19
+//@spec
+    ensures r.algorithms@ == v@,
+//@end
 }
